@@ -815,6 +815,17 @@ func (ev *Ev) call(e *SExpr) *Val {
 	case "val":
 		v := ev.eval(args[0])
 		return mathVal(bigval(ev.st, v.X))
+	case "visited":
+		// visited(m, k): the current range loop over the map m has already produced key k (ghost, see exec.go *ssa.Range)
+		m := ev.eval(args[0])
+		if m.K != KMap {
+			specFail("visited(m, k): m must be a map")
+		}
+		k := ev.eval(args[1])
+		ks := mapKeySort(m.T)
+		kt := ev.fr.mapKeyTerm(k)
+		vis := ev.st.heapGet("M:"+tstr(m.T)+"#visited", SArr(SInt, SArr(ks, SBool)))
+		return boolVal(Select(Select(vis, m.X), kt))
 	case "fresh":
 		// allocated during the call (at a call site: between the call's pre- and post-state; in the function's own
 		// postcondition: since function entry)
